@@ -61,6 +61,9 @@ func main() {
 
 	if cfg.Replay != "" {
 		for _, l := range hlib.ReplayLines(cfg.Replay) {
+			if i := strings.Index(l, " ## "); i >= 0 {
+				l = l[:i]
+			}
 			if ws := strings.Fields(l); len(ws) > 0 && (ws[0] == "sweep" || (len(ws) > 1 && ws[1] == "sweep")) {
 				if ws[0] != "sweep" {
 					ws = ws[1:]
@@ -100,6 +103,7 @@ func main() {
 			capPerFormat = 40
 		}
 		runSweep(o, sweepPairs(r, capPerFormat))
+		runTarget(o, r)
 		return
 	}
 	g := newGen(r)
